@@ -241,7 +241,7 @@ def units(tier):
     us = [("random-programs", "unit_random_programs", dict(tier=tier)), ("self-reference", "unit_self_reference", {}), ("align", "unit_align_total", {}), ("bin", "unit_bin", {}),
           ("awaiting", "unit_awaiting", {}), ("wait", "unit_wait", {}), ("promise", "unit_promise", {}), ("number", "unit_number", {}), ("encode", "unit_encode", {}),
           ("charliteral", "unit_charliteral", {}), ("include", "unit_include", {}), ("insert_file", "unit_insert_file", {}), ("repeat", "unit_repeat", {}),
-          ("resolve-register", "unit_resolve_register", {})]
+          ("resolve-register", "unit_resolve_register", {}), ("try_as_register", "unit_try_as_register", {}), ("try_accumulator", "unit_try_accumulator", {})]
     for sh in insn.CPU_SHAPES:
         for lazy in (False, True):
             us.append(("rm[%s,%s]" % (sh, lazy), "unit_rm_encode", dict(shape=sh, lazy=lazy)))
@@ -339,6 +339,9 @@ def replay(o, tree):
     elif k == "offset":
         from contracts import c04
         return c04.replay_offset(cfg, o.get("witness") or {}, tree)
+    elif o.get("unit", "").startswith("try_accumulator_from_symbol["):
+        from contracts import c01
+        return c01.replay_accumulator_name(o, tree)
     if src is None:
         return None
     out = _native_outcome(tree, src)
